@@ -570,7 +570,7 @@ fn work(args: &Args, entries: &[Entry], w: usize, nw: usize) -> Value {
         if idx % nw != w {
             continue;
         }
-        let res = fork_collect(if thorough { 600_000 } else { 240_000 }, |wfd| {
+        let res = fork_collect(if thorough { 1_800_000 } else { 900_000 }, |wfd| {
             let v = run_item(&r, entries, item, thorough, args.seed, idx as u64);
             let s = v.to_string();
             let b = s.as_bytes();
@@ -607,7 +607,7 @@ fn work(args: &Args, entries: &[Entry], w: usize, nw: usize) -> Value {
         if p.partial() || p.bytes_input() || p.cyclic() {
             continue;
         }
-        let res = fork_collect(240_000, |wfd| {
+        let res = fork_collect(900_000, |wfd| {
             let v = run_reuse_item(&r, entries, pi, thorough, args.seed, idx as u64);
             let s = v.to_string();
             let b = s.as_bytes();
